@@ -90,6 +90,7 @@ type c03Cfg struct {
 	overlap bool // predicate: bins match overlapping key sets
 	limit   int
 	dynamic bool // add/remove partitions in the alphabet
+	fine    bool // SetLimit alphabet {16, 1000}: shares of fractions that are not multiples of 0.1
 }
 
 func (c c03Cfg) String() string {
@@ -97,7 +98,7 @@ func (c c03Cfg) String() string {
 	if c.lookup {
 		k = "lookup"
 	}
-	return fmt.Sprintf("%s fracs=%v limit=%d overlap=%v dynamic=%v", k, c.fracs, c.limit, c.overlap, c.dynamic)
+	return fmt.Sprintf("%s fracs=%v limit=%d overlap=%v dynamic=%v fine-limits=%v", k, c.fracs, c.limit, c.overlap, c.dynamic, c.fine)
 }
 
 type c03Tok struct {
@@ -199,7 +200,11 @@ func (s *c03State) ops() []c03Op {
 			ops = append(ops, c03Op{kind: "rel", arg: h.bin.name})
 		}
 	}
-	for _, v := range []int{1, 2, 3, 5} {
+	sets := []int{1, 2, 3, 5}
+	if s.cfg.fine {
+		sets = []int{16, 1000}
+	}
+	for _, v := range sets {
 		if v != s.ref.limit {
 			ops = append(ops, c03Op{kind: "set", n: v})
 		}
@@ -499,6 +504,10 @@ func runC03(c *Ctx) {
 			c.runBFS(c03Model(c03Cfg{lookup: false, fracs: []float64{0.5, 0.5}, overlap: true, limit: 2}), mc.BFSOptions{MaxDepth: depth, MaxStates: 400000})
 			c.runBFS(c03Model(c03Cfg{lookup: false, fracs: []float64{0.3, 0.3}, overlap: true, limit: 3, dynamic: true}), mc.BFSOptions{MaxDepth: c.Pick(40, 60), MaxStates: 400000})
 		}
+	}
+	// fractions finer than a tenth at limits where ceil(limit x fraction) is not reached by coarser arithmetic
+	for _, lookup := range []bool{true, false} {
+		c.runBFS(c03Model(c03Cfg{lookup: lookup, fracs: []float64{0.0625, 0.33}, limit: 3, fine: true}), mc.BFSOptions{MaxDepth: c.Pick(6, 8), MaxStates: 400000})
 	}
 	c03Matchers(c)
 	// Mode T: concurrent mixes on one strategy
